@@ -417,7 +417,7 @@ func (r *runner) run(t0 time.Time) int {
 					if !ok {
 						unreproduced = append(unreproduced, map[string]interface{}{"obligation": o.Name, "params": params, "label": v.Label, "model": v.Model, "native": tail(nativeOut, 600)})
 						if *verbose {
-							fmt.Fprintf(os.Stderr, "  unreproduced: %s %v\n%s\n", v.Label, v.Model, tail(nativeOut, 1500))
+							fmt.Fprintf(os.Stderr, "  unreproduced: %s %.300s\n%s\n", v.Label, fmt.Sprint(v.Model), tail(nativeOut, 600))
 						}
 						continue
 					}
